@@ -9,7 +9,7 @@ git -C /repo worktree add -q "$WT" HEAD || exit 2
 # reuse the agent's build output to save time
 [ -d /tmp/wt/$ID/target ] && mv /tmp/wt/$ID/target "$WT/target"
 cd "$WT"
-DEMO=$(ls $OUT/demo/*.rs | head -1); NAME=$(basename "$DEMO" .rs)
+DEMO=$(ls $OUT/demo/*.rs 2>/dev/null | head -1); NAME=$(basename "${DEMO:-none}" .rs)
 EXTRA=""; [ "$ID" = "C09" ] && EXTRA="--features walrus/parallel"
 run_demo() {
   if [ "$ID" = "C09" ]; then
@@ -17,7 +17,15 @@ run_demo() {
     sed "s#/tmp/wt/C09 #$WT #; s#cd /tmp/wt/C09#cd $WT#" $OUT/demo/run_demo.sh > /tmp/wt/run_demo_verify.sh
     sh /tmp/wt/run_demo_verify.sh /tmp/wt/c09dump > /tmp/wt/c09demo.log 2>&1
     rm -f crates/tests/tests/$NAME.rs
-    if grep -q "DIFFERENT\|FAILED\|failed" /tmp/wt/c09demo.log; then return 1; else return 0; fi
+    if grep -q "DIFFERENT\|test result: FAILED" /tmp/wt/c09demo.log; then return 1; else return 0; fi
+  fi
+  if [ "$ID" = "C10" ]; then
+    # a small cargo project with a path dependency on the agent's worktree: point it at this worktree
+    rm -rf /tmp/wt/c10demo; cp -r $OUT/demo /tmp/wt/c10demo; sed -i "s#/tmp/wt/C10#$WT#g" /tmp/wt/c10demo/Cargo.toml
+    ( cd /tmp/wt/c10demo && CARGO_TARGET_DIR=/tmp/wt/c10demo-target cargo test -q --offline >/dev/null 2>&1 ); RC=$?; return $RC
+  fi
+  if [ "$ID" = "C05" ] || [ "$ID" = "C02" ] || [ "$ID" = "C20" ]; then
+    mkdir -p tests; cp "$DEMO" tests/; cargo test -q --offline --test "$NAME" >/dev/null 2>&1; RC=$?; rm -rf tests; return $RC
   fi
   cp "$DEMO" crates/tests/tests/; cargo test -q -p walrus-tests --offline --test "$NAME" >/dev/null 2>&1; RC=$?; rm -f crates/tests/tests/$NAME.rs; return $RC; }
 run_demo; WITHOUT=$?
